@@ -34,11 +34,14 @@ def flat(tree):
 
 
 def view(tree):
-    """per-index view of a batched tree: [[digest of leaf[j] for each leaf] for j in range(B)]"""
+    """per-index view of a batched tree: [[digest of leaf[j] for each leaf] for j in range(B)]; a tree that is not
+    batched (a leaf without a leading axis, ragged leading axes) has no view: [] - the laws then fail on the data"""
     leaves, _ = flat(tree)
-    if not leaves:
+    if not leaves or any(lf.ndim == 0 for lf in leaves):
         return []
     B = leaves[0].shape[0]
+    if any(lf.shape[0] != B for lf in leaves):
+        return []
     return [[leafd(lf[j]) for lf in leaves] for j in range(B)]
 
 
@@ -94,6 +97,8 @@ def tree_events(name, trees, rng, evs):
                 "in_dtypes": dts(trees[0]), "out_dtypes": dts(st), "in_treedef": flat(trees[0])[1], "out_treedef": flat(st)[1],
                 "out_shapes_ok": shapes(st) == [[B] + s for s in shapes(trees[0])]})
     stv = view(st)
+    if not stv:        # the stacked tree is not a batched tree: the remaining calls are meaningless (already rejected above)
+        return
     for i in range(B):
         r = tree_utils.tree_slice(st, i)
         evs.append({"k": "slice", "name": name, "B": B, "i": i, "tree_view": stv, "result": [leafd(x) for x in flat(r)[0]],
